@@ -166,9 +166,13 @@ def main():
         elif o["status"] != "unsat":
             undecided.append({"obligation": oid, "reason": f'{o["solver"]}: unknown {o.get("reason", "")} cvc5={o.get("cvc5", "-")}',
                               "was_locked": oid in locked})
-    for oid in locked:
-        if oid not in by_id and not a.no_prove:
-            undecided.append({"obligation": oid, "reason": "obligation of the lock file was not generated on this tree"})
+    # vacuity guard against the lock file: every function proved on the pinned tree must still produce obligations
+    # (obligation ids may legitimately shift when a function body is edited, so they are not compared one by one)
+    locked_fns = {oid.split("/")[0] for oid in locked}
+    have_fns = {oid.split("/")[0] for oid in by_id}
+    for fnm in sorted(locked_fns - have_fns):
+        if not a.no_prove and not any(u.get("function") == fnm for u in undecided):
+            undecided.append({"function": fnm, "reason": "contracted function of the lock file produced no obligation on this tree"})
     # bounded stand-in
     harness = None if a.no_harness else run_harness(pid, tier, seed, 1500 if tier == "quick" else 7200)
     if harness is not None:
